@@ -226,4 +226,16 @@ REG = {
     note="Only the two installed compilers are covered. Definitions using M_PI, sqrt or non-integer powers are checked for initialisation order only. Values whose quotient by the unit "
          "leaves the normal range of doubles are not generated.",
     technique="TLA+ file machine (TLC exhaustive over shapes/headers) with trace validation of recorded round trips + TLA+ initialisation-order machine and exact arbitrary-precision unit algebra over the parsed source + four-build comparison of the constants"),
+ "C16": dict(
+    engine="spec/Geometry.tla, MC_Geometry.tla, Trace_Geometry.tla, Rat.tla; harness/c16.cpp",
+    design_ref="DESIGN.md §4.16",
+    text="With (cos, sin) from Pythagorean triples and unit axes from Pythagorean quadruples Rodrigues' matrix is rational: Geometry.tla builds it exactly and TLC checks, for 28 "
+         "angles in all quadrants x 54 axes with every sign pattern, that it is proper orthogonal, fixes the axis, composes with a second rotation about the same axis by angle "
+         "addition, and turns vectors perpendicular to the axis by the angle in the right-handed sense; plain spherical coordinates with rational sines and cosines have norm r. "
+         "Every exact matrix is replayed through Rotation_Matrix with the axis scaled to a random length and the angle shifted by multiples of 2 pi. Recorded relations on random "
+         "angles in [-4pi,4pi], axes on the sphere, along the coordinate directions, within 1e-16..1e-6 of +-z and exactly +-z, lengths 1e-6..1e6 (orthogonality, determinant, fixed "
+         "axis, composition, turning angle and handedness, the 2D rotation, plain spherical components, axis-relative norm, polar angle and right-handed advance in phi) are accepted "
+         "by Trace_Geometry, which also demands that every axis class was exercised and every result is finite.",
+    note="Exact on the rational lattice; elsewhere residual bounds of 16-64 eps for rotations and 1e-12 (norm, polar cosine) / 1e-11 (handedness) for spherical coordinates.",
+    technique="exact-rational TLA+ model of Rodrigues rotations (TLC exhaustive on Pythagorean angles x axes), replay of the exact matrices, trace validation of recorded geometric relations per axis class"),
 }
